@@ -114,6 +114,14 @@ CHECKS.update({
          "DESIGN.md §4 C05"),
 })
 
+CHECKS.update({
+ "C16": ("exploration",
+         "deterministic simulation: seeded staking/distribution histories with slashing, unbondings and redelegations in flight; at seeded boundaries a native-message fork and a precompile-call fork of the same disk are executed and their committed stores compared (fork differential); read-only precompile methods compared with module state at simulated states",
+         "For every sampled (method, arguments incl. zero / above balance / huge / invalid validator, state) the owner's native message and the owner's direct precompile call are executed on two forks of the same block boundary: both must succeed or both fail, and the staking, distribution, slashing, authz, bank, gov, ibc/transfer/capability and Haqq module stores must be identical afterwards (fees are zero; evm/feemarket/acc ignored). delegation / unbondingDelegation / bank.balances / bank.totalSupply outputs are decoded and compared with keeper state.",
+         "ICS-20 transfer, claimRewards (no single native equivalent), validators/redelegations pagination and supplyOf are not compared at this commit.",
+         "DESIGN.md §4 C16"),
+})
+
 NOT_YET = {}  # id -> reason (filled below)
 NA = {
  "C18": "pure function of one input (wrap -> encode -> decode -> unwrap of one Ethereum tx): no schedule, clock, fault, crash or second party can change its result, so deterministic simulation with fault injection has nothing to decide; see DESIGN.md §4 C18",
